@@ -155,7 +155,7 @@ class Engine:
         self.relations = []
         self.cur = "?"
         self.it.range_hook = self.range_hook
-        self.it.np_hooks.update({"zeros_like": self.zeros_like, "arange": self.arange, "zeros": self.np_zeros, "repeat": lambda a, k: ("repeat", a[0], a[1])})
+        self.it.np_hooks.update({"zeros_like": self.zeros_like, "arange": self.arange, "builtin:slice": self.slice_table, "zeros": self.np_zeros, "repeat": lambda a, k: ("repeat", a[0], a[1])})
         self.dir_stores = []
         self.events = []
 
@@ -178,6 +178,13 @@ class Engine:
 
     def arange(self, args, kwargs):
         return Family(self.alg, self.it.lift(args[0]), self.alg.const(1), self.alg.const(0))
+
+    def slice_table(self, args, kwargs):
+        """slice(a, b) stored as an index table: the same faces as a + arange(b - a)"""
+        if len(args) != 2:
+            raise AnalysisError("slice object with a step or without a start as an index table")
+        a, b = self.it.lift(args[0]), self.it.lift(args[1])
+        return Family(self.alg, b - a, self.alg.const(1), a)
 
     def np_zeros(self, args, kwargs):
         a = args[0]
